@@ -1109,7 +1109,71 @@ def run_C14(ctx, rng, tier, res, known):
     res.evals += table_check.count
     res.nontrivial.update(range(table_check.count))
     res.samples.append(dict(note="every table entry and on-demand power recomputed from its definition", entries=table_check.count))
+    libm_correspondence(ctx, rng, res, 1500 if tier == "quick" else 60000)
     return {"exhaustive": True}
+
+def libm_correspondence(ctx, rng, res, n):
+    """the bundled libm (`powd` / `powf`, compiled only in the no_std + compact build) against its Lean model
+    (Model/Libm.lean; theorems Props/C14Libm.lean: the model returns exactly 10^k for the 23 + 11 arguments the
+    crate uses). The 34 used points are part of C14 (a wrong value there is a violation, also seen by the table
+    check through the dump); everywhere else a difference is recorded as a stage difference (the property does not
+    speak about other arguments), which only deepens the search."""
+    import struct
+    if "compact" not in ctx.cfgs:
+        return
+    def d2b(x):
+        return struct.unpack("<Q", struct.pack("<d", x))[0]
+    def f2b(x):
+        return struct.unpack("<I", struct.pack("<f", x))[0]
+    lines, used = [], set()
+    for k in range(0, 41):
+        lines.append("powd %d %d" % (d2b(10.0), d2b(float(k))))
+        if k <= 22:
+            used.add(lines[-1])
+    for k in range(0, 21):
+        lines.append("powf %d %d" % (f2b(10.0), f2b(float(k))))
+        if k <= 10:
+            used.add(lines[-1])
+    bases = [2.0, 3.0, 5.0, 10.0, 0.1, 0.5, 1.5, 7.25, 1e-300, 1e300, 5e-324, 1.0000000000000002, 0.9999999999999999, -2.0, -10.0, -0.5]
+    for _ in range(n):
+        r = rng.random()
+        if r < 0.45:
+            x = rng.choice(bases); y = float(rng.randint(-45, 45)) if rng.random() < 0.7 else rng.uniform(-40, 40)
+        elif r < 0.8:
+            x = struct.unpack("<d", struct.pack("<Q", rng.getrandbits(63)))[0]; y = rng.uniform(-3, 3) if rng.random() < 0.5 else float(rng.randint(-5, 5))
+        else:
+            x = rng.uniform(0.5, 2.0); y = rng.uniform(-1100, 1100)
+        if x != x or y != y:
+            continue
+        if rng.random() < 0.6:
+            lines.append("powd %d %d" % (d2b(x), d2b(y)))
+        else:
+            try:
+                lines.append("powf %d %d" % (f2b(x), f2b(y)))
+            except OverflowError:
+                continue
+    model = run_model("compact", "release", lines)
+    diffs = 0
+    for p in ctx.profiles:
+        impl = run_impl("compact", p, lines)
+        for line, I, M in zip(lines, impl, model):
+            res.evals += 1
+            if I.startswith("unknown-command"):
+                return
+            if I.startswith(("abort", "panic")) and p == "dbg":
+                continue        # checked arithmetic inside libm's bit manipulation is not part of the property
+            if I != M:
+                if line in used:
+                    res.viol.append(("on-demand-power", dict(case=line, cfg="compact", profile=p, impl=I, model=M,
+                                                             why="bundled libm returns a value different from the exact power of ten the model proves")))
+                else:
+                    diffs += 1
+                    res.extra["stage_difference_count"] = res.extra.get("stage_difference_count", 0) + 1
+                    sd = res.extra.setdefault("stage_differences", [])
+                    if len(sd) < 10:
+                        sd.append(dict(stage="libm", case=line, cfg="compact", profile=p, impl=I, model=M))
+    res.extra["libm_model_cases"] = len(lines)
+    res.extra["libm_model_differences_outside_used_points"] = diffs
 
 def lemire_entry(q):
     if q < 0:
